@@ -5,6 +5,8 @@ C12 driver.
   accept-stubs <cfg> <file> <output-hex>  → ok | bad-…  (the implementation's formatted stub file:
                                             one package clause as configured, one `func` line per
                                             function in file order, its directives directly above it)
+  accept-verbatim <cfg> <file> <output-hex> → ok | bad-… (first line = generated-code comment with the tool name /
+                                            command line as given; every declaration = Stub() up to layout)
   accept-cons <file> <asm-hex> <stub-hex> → ok | bad-…  (both outputs carry the same constraint lines)
   accept-gostub <verdict> …, accept-build <verdict> … → ok iff the harness measured `ok`
                                             (go/parser, go/types, go/format; go list/build/vet/link)
@@ -78,6 +80,11 @@ def handle : Handler
     let (f, ts) ← fileTok ts
     let (out, _) ← txtTok ts
     some (acceptStubs cfg f out)
+  | "accept-verbatim" :: ts => do
+    let (cfg, ts) ← cfgTok ts
+    let (f, ts) ← fileTok ts
+    let (out, _) ← txtTok ts
+    some (acceptVerbatim cfg f out)
   | "accept-cons" :: ts => do
     let (f, ts) ← fileTok ts
     let (a, ts) ← txtTok ts
@@ -89,6 +96,6 @@ def handle : Handler
   | _ => none
 
 def handlers : List (String × Handler) :=
-  ["stubs", "wf-stubs", "accept-stubs", "accept-cons", "accept-gostub", "accept-build"].map (·, handle)
+  ["stubs", "wf-stubs", "accept-stubs", "accept-verbatim", "accept-cons", "accept-gostub", "accept-build"].map (·, handle)
 
 end Avo.Drv.C12
